@@ -128,9 +128,61 @@ GLOBAL_BENIGN = [
 RENAME_ROBUST = {"C%02d" % i for i in range(1, 21)}
 
 
+def _filed(prop):
+    """independently written changes filed under /verif/seeded (must fire for their target property) and behaviour-preserving
+    refactorings filed under /verif/benign (every property must stay silent)"""
+    import json
+    out = []
+    base = os.path.dirname(os.path.dirname(os.path.abspath(__file__)))
+    for kind in ("seeded", "benign"):
+        d = os.path.join(base, kind)
+        if not os.path.isdir(d):
+            continue
+        for name in sorted(os.listdir(d)):
+            mp, pp = os.path.join(d, name, "meta.json"), os.path.join(d, name, "patch.diff")
+            if not (os.path.exists(mp) and os.path.exists(pp)):
+                continue
+            try:
+                meta = json.load(open(mp))
+            except ValueError:
+                continue
+            if kind == "seeded" and meta.get("property") == prop and meta.get("confirmed"):
+                out.append({"id": f"filed-change:{name}", "patch": pp, "expect": prop})
+            elif kind == "benign" and meta.get("suite_green"):
+                out.append({"id": f"filed-refactoring:{name}", "patch": pp, "expect": None})
+    return out
+
+
+def _one_patch(prop, seed, src_root):
+    import subprocess
+    from .cli import evaluate
+    tmp = tempfile.mkdtemp(prefix="nqsa-st-")
+    try:
+        shutil.copytree(os.path.join(src_root, "netqasm"), os.path.join(tmp, "netqasm"), ignore=shutil.ignore_patterns("__pycache__", "*.pyc"))
+        r = subprocess.run(["git", "apply", "--exclude=demo.py", seed["patch"]], cwd=tmp, capture_output=True, text=True)
+        if r.returncode != 0:
+            return (seed["id"], "skipped", "patch no longer applies to this tree")
+        ctx = evaluate(prop, "quick", root=tmp)
+        violations, known = report.classify(ctx)
+        if seed["expect"] is None:
+            if ctx.errors:
+                return (seed["id"], "failed", "behaviour-preserving refactoring -> analysis error: " + "; ".join(ctx.errors)[:300])
+            if violations:
+                return (seed["id"], "failed", "behaviour-preserving refactoring -> violation: " + "; ".join(f"{v.rule} {v.construct}" for v in violations)[:300])
+            return (seed["id"], "ok", "silent")
+        if violations:
+            return (seed["id"], "ok", f"{violations[0].rule} {violations[0].construct}")
+        return (seed["id"], "failed", "filed breaking change is no longer reported" + (" (analysis error: " + ctx.errors[0][:200] + ")" if ctx.errors else ""))
+    finally:
+        shutil.rmtree(tmp, ignore_errors=True)
+
+
 def _one(args):
     prop, seed, src_root = args
     from .cli import evaluate
+
+    if seed.get("patch"):
+        return _one_patch(prop, seed, src_root)
 
     if seed.get("transform"):
         tmp = tempfile.mkdtemp(prefix="nqsa-st-")
@@ -214,7 +266,7 @@ def run_seeds(prop, seeds, src_root=None, workers=None):
 def run_for(prop, ctx=None):
     mod = importlib.import_module(f"nqsa.rules.{prop.lower()}")
     seeds = list(getattr(mod, "SEEDS", [])) + [dict(s, expect=None) for s in getattr(mod, "BENIGN", [])] + \
-        [g for g in GLOBAL_BENIGN if g["transform"] != "rename-locals" or prop in RENAME_ROBUST]
+        [g for g in GLOBAL_BENIGN if g["transform"] != "rename-locals" or prop in RENAME_ROBUST] + _filed(prop)
     res = run_seeds(prop, seeds)
     summary = {"seeds": len(seeds), "ok": 0, "skipped": 0, "failed": 0, "results": []}
     for sid, status, msg in res:
